@@ -98,7 +98,7 @@ def main(tier):
     bulk_rng = random.Random(rng.randrange(1 << 30))
     bulk = {"project": G.base_project(bulk_rng), "tag": [k, "bulk", "empty", False, None],
             "_meta": {"defect": ("none", None, None), "prior": "bulk", "stale": False, "v1index": False},
-            "steps": [G.run_step(bulk_rng, 100, again=False, p_fail=0.0), {"cmd": "bulk", "n": 600 if tier == "quick" else 2600},
+            "steps": [G.run_step(bulk_rng, 100, again=False, p_fail=0.0), {"cmd": "bulk", "n": 600 if tier == "quick" else 1100},
                       {"cmd": "archive", "argv": ["archive", "-o", "../A.tar.gz"], "out": "../A.tar.gz", "sel": {}},
                       {"cmd": "clean", "argv": ["clean", "-f"]},
                       {"cmd": "restore", "argv": ["restore", "../A.tar.gz"], "archive": "../A.tar.gz", "defect": "none", "label": "target"}]}
